@@ -140,6 +140,7 @@ func runC15(c *Ctx) {
 		ruleElementWidth(c, p, "C15.width")
 		ruleSwapRegion(c, p, "C15.swap")
 		ruleAppendFromOwnLength(c, p, "C15.append-from-len")
+		ruleReadSizeUncapped(c, p, "C15.readsize")
 		c.R.Rule("C15.append", "E4 (see C01.append) in every configuration: both variants leave bytes already in the buffer alone")
 		n := runBufDisc(c, p, "C15.append")
 		c.R.Floor("C15.append", p.Cfg.Name, n, 90)
